@@ -4,6 +4,7 @@ import registry
 
 ROOT = os.path.dirname(os.path.dirname(os.path.abspath(__file__)))
 BBR_CLASS = "bbr_min_window_u16_overflow"
+BBR_CLASS2 = "bbr_send_quantum_u16_overflow"
 
 
 def _mtu_max():
@@ -14,7 +15,10 @@ def _mtu_max():
         txt = open(os.path.join(ROOT, "KNOWN_FINDINGS.txt")).read()
     except OSError:
         txt = ""
-    return 32768 if BBR_CLASS in txt else 16383
+    # second site: Pacer::set_send_quantum computes `max_datagram_size * 2` in u16 (overflows at exactly 32768)
+    if BBR_CLASS not in txt:
+        return 16383
+    return 32768 if BBR_CLASS2 in txt else 32767
 
 
 MTU_MAX = _mtu_max()
@@ -79,13 +83,13 @@ def fixed_dcsim(tier):
         out.append([2, sc, 1250, 9001, 1000, 300000, 0, 0, 0, 0, 0, 1000, 1000, 1000, 65536, 1, 1, 1000, 0, 0])
     # heavy faults
     out.append([3, 0, 1472, 1472, 200000, 200000, 300, 300, 300, 500, 20000, 4096, 4096, 5000, 5000, 3, 3, 0, 0, 0])
-    out.append([4, 0, 1250, 16383 if MTU_MAX < 32768 else 32768, 300000, 1000, 100, 200, 100, 200, 2000, 65536, 1472, 65536, 100, 2, 0, 0, 0, 0])
+    out.append([4, 0, 1250, MTU_MAX, 300000, 1000, 100, 200, 100, 200, 2000, 65536, 1472, 65536, 100, 2, 0, 0, 0, 0])
     out.append([5, 2, 1500, 1500, 1 << 20, 1000, 500, 500, 0, 0, 100, 4096, 4096, 65536, 1000, 1, 3, 0, 0, 0])
     out.append([6, 2, 1500, 1500, 1000, 1000, 900, 900, 0, 0, 100, 4096, 4096, 1000, 1000, 3, 3, 0, 0, 0])
     out.append([7, 1, 1500, 1500, 1000, 1000, 0, 0, 0, 0, 100, 4096, 4096, 1000, 1000, 3, 3, 0, 0, 0])
     out.append([8, 0, 1500, 1500, 60000, 60000, 50, 50, 20, 50, 2000, 1000, 1000, 1000, 1000, 7, 7, 0, 1000, 3])
-    if MTU_MAX >= 32768:
-        out.append([9, 0, 32768, 32768, 300000, 300000, 50, 50, 20, 50, 2000, 65536, 65536, 65536, 65536, 3, 3, 0, 0, 0])
+    if MTU_MAX >= 32767:
+        out.append([9, 0, MTU_MAX, MTU_MAX, 300000, 300000, 50, 50, 20, 50, 2000, 65536, 65536, 65536, 65536, 3, 3, 0, 0, 0])
         out.append([10, 0, 16384, 1500, 100000, 100000, 0, 0, 0, 0, 0, 65536, 65536, 65536, 65536, 3, 3, 0, 0, 0])
     return out
 
@@ -130,8 +134,12 @@ def histogram_dcsim(cases, outs):
 
 
 def classify(p):
-    if "attempt to multiply with overflow" in (p.get("impl") or "") and max((list(p["case"]) + [0] * 4)[2:4]) >= 16384:
-        return BBR_CLASS
+    if "attempt to multiply with overflow" in (p.get("impl") or ""):
+        m = max((list(p["case"]) + [0] * 4)[2:4])
+        if m >= 32768:
+            return BBR_CLASS2
+        if m >= 16384:
+            return BBR_CLASS
     return None
 
 
